@@ -853,20 +853,22 @@ class Prepared:
         self._hits = None
         self._rej = {}
 
-    def hits(self, channel):
+    def hits(self, channel, subset=None):
+        """matching active signatures; subset = indices of the generated signatures that are installed"""
+        b, g = ref_sigs(self.gate)
         if self._hits is None:
-            b, g = ref_sigs(self.gate)
-            self._hits = ([s for s in b if s.matches(self.content)], [s for s in g if s.matches(self.content)])
+            self._hits = ([s for s in b if s.matches(self.content)],
+                          [(i, s) for i, s in enumerate(g) if s.matches(self.content)])
         out = [(s, "builtin") for s in self._hits[0]]
         if channel != "none":
-            out += [(s, ORIGIN[channel]) for s in self._hits[1]]
+            out += [(s, ORIGIN[channel]) for i, s in self._hits[1] if subset is None or i in subset]
         return out
 
-    def active_origin(self, ident, channel):
+    def active_origin(self, ident, channel, subset=None):
         b, g = ref_sigs(self.gate)
         if any(s.ident == ident for s in b):
             return "builtin"
-        if channel != "none" and any(s.ident == ident for s in g):
+        if channel != "none" and any(s.ident == ident and (subset is None or i in subset) for i, s in enumerate(g)):
             return ORIGIN[channel]
         return "unknown"
 
@@ -876,11 +878,15 @@ class Prepared:
         return self._rej[vset]
 
 
-def eval_membrane(threshold, channel, spec, pre=None):
+def eval_membrane(threshold, channel, spec, pre=None, subset=None):
     """-> (violations [(key, what)], outcome tuple, nontrivial bool)"""
     pre = pre or Prepared("M", spec)
     content = pre.content
-    m = make_membrane(threshold, channel, gen_membrane_sigs())
+    gen = gen_membrane_sigs()
+    if subset is not None:
+        subset = tuple(subset)
+        gen = [gen[i] for i in subset]
+    m = make_membrane(threshold, channel, gen)
     vclock.use(vclock.VClock())
     try:
         res = m.filter(Signal(content))
@@ -890,7 +896,7 @@ def eval_membrane(threshold, channel, spec, pre=None):
                 ("M", "raise", type(e).__name__), True)
     v = []
     th = LEVELS.index(threshold)
-    hits = pre.hits(channel)
+    hits = pre.hits(channel, subset)
     ref_max = max([s.level for s, _ in hits], default=0)
     if res.allowed:
         for s, o in hits:
@@ -906,7 +912,7 @@ def eval_membrane(threshold, channel, spec, pre=None):
         extra = [x for x in got if x not in exp]
         tag = "missing" if missing else "extra"
         one = (missing or extra)[0]
-        origin = pre.active_origin(one, channel)
+        origin = pre.active_origin(one, channel, subset)
         v.append((f"membrane:matched-set-{tag}:{'regex' if one[1] else 'substring'}:{origin}",
                   f"matched_signatures {tag} {one!r}; reference matches {exp}, reported {got}"))
     if res.threat_level.value != ref_max:
@@ -1023,6 +1029,14 @@ def d_items(tier):
                         items.append(("M", "combo", spec, m_th, M_CHANNELS, None))
                     else:
                         items.append(("I", "combo", spec, i_th, ["none", "ctor", "add"], ["default"]))
+    # every subset of a family of generated signatures installed as custom / learned ones
+    fam = [2, 3, 4, 5] if quick else [0, 1, 2, 3, 4, 5, 6, 7]
+    gsig = gen_membrane_sigs()
+    fw = [witnesses(gsig[i][0], gsig[i][1])[0] for i in fam]
+    subsets = [[fam[j] for j in range(len(fam)) if mask >> j & 1] for mask in range(1 << len(fam))]
+    sub_specs = [[w.upper()] for w in fw] + [[fw[j], " / ", fw[j + 1]] for j in range(len(fw) - 1)] + [[" ".join(fw)]]
+    for spec in sub_specs:
+        items.append(("M", "subset", spec, m_th, ["ctor", "learn"], subsets))
     for tag, spec in hostile_inputs():
         items.append(("M", "hostile:" + tag, spec, m_th, ["none", "ctor", "import"], None))
         if quick:
@@ -1045,8 +1059,9 @@ def d_work(chunk):
             for ch in chans:
                 for vs in (vsets or [None]):
                     if gate == "M":
-                        v, out, nt = eval_membrane(th, ch, spec, pre)
-                        case = {"engine": "D", "gate": "M", "threshold": th, "channel": ch, "spec": spec, "pclass": pclass}
+                        v, out, nt = eval_membrane(th, ch, spec, pre, vs)
+                        case = {"engine": "D", "gate": "M", "threshold": th, "channel": ch, "spec": spec,
+                                "pclass": pclass, "subset": vs}
                     else:
                         v, out, nt = eval_innate(th, ch, vs, spec, pre)
                         case = {"engine": "D", "gate": "I", "threshold": th, "channel": ch, "vset": vs, "spec": spec,
@@ -1427,6 +1442,10 @@ def run(ctx):
         "the reference regex matcher is cross-checked against re.compile(p, re.I).search on every evaluated pair",
         "validator reference is one-directional: only inputs the documented rule must reject are asserted "
         "(JSON: invalid by RFC 8259 grammar, nesting > max_depth, size > max_size; NaN/Infinity are don't-care)",
+        "signature subsets: every subset of a generated family (4 signatures quick / 8 thorough) is installed on the "
+        "membrane; for the remaining combinations the scan's per-signature independence is relied on (built-ins are "
+        "always active - the public constructor cannot remove them); the innate gate is run with built-ins only and "
+        "with built-ins + all generated patterns",
         "engine A: 7 inputs, 2 learnable patterns, 1 custom signature, advances {1,59,61} s, rate_limit in {None,0,1,2}",
     ]
 
@@ -1435,7 +1454,7 @@ def replay(ctx, case):
     if case.get("engine") == "D":
         spec = _unspec(case["spec"])
         if case["gate"] == "M":
-            v, out, _ = eval_membrane(case["threshold"], case["channel"], spec)
+            v, out, _ = eval_membrane(case["threshold"], case["channel"], spec, subset=case.get("subset"))
         else:
             v, out, _ = eval_innate(case["threshold"], case["channel"], case.get("vset"), spec)
         print("  outcome:", out)
